@@ -56,6 +56,8 @@ class TlcResult:
         return self.rc == 0 and self.error is None
 
 
+import itertools
+_COUNTER = itertools.count()
 _STATS = re.compile(r"^(\d+) states generated, (\d+) distinct states found", re.M)
 _SIMSTATS = re.compile(r"The number of states generated: (\d+)")
 _INV = re.compile(r"Error: Invariant (\S+) is violated")
@@ -93,7 +95,7 @@ class Ctx:
         """Run TLC on spec/<module>.tla with spec/<cfg>. Returns TlcResult (never raises on a
         property violation; raises MachineryError on crash / timeout / parse errors)."""
         cfg = cfg or module + ".cfg"
-        meta = os.path.join(self.work, f"meta-{len(self.tlc_runs)}")
+        meta = os.path.join(self.work, f"meta-{next(_COUNTER)}")
         cmd = ["java", "-XX:+UseParallelGC", f"-Xmx{heap}", "-Xss64m", "-cp", TLA_CP, "tlc2.TLC",
                "-workers", str(workers), "-metadir", meta, "-noGenerateSpecTE", "-config", cfg]
         if simulate:
